@@ -108,18 +108,38 @@ class MachineModel:
         placement: list[int] | None = None,
     ) -> bool:
         """Check if a circuit is compatible with this model."""
+        from bqskit.ir.gates.barrier import BarrierPlaceholder
+        from bqskit.ir.gates.measure import MeasurementPlaceholder
+        from bqskit.ir.gates.reset import Reset
+
         if circuit.num_qudits > self.num_qudits:
             return False
 
-        if any(g not in self.gate_set for g in circuit.gate_set):
+        # Placeholders are not gates the machine has to execute
+        placeholders = (BarrierPlaceholder, MeasurementPlaceholder, Reset)
+        gates = [g for g in circuit.gate_set if not isinstance(g, placeholders)]
+
+        if any(g not in self.gate_set for g in gates):
             return False
 
         if placement is None:
             placement = list(range(circuit.num_qudits))
 
+        if len(gates) == len(circuit.gate_set):
+            edges = set(circuit.coupling_graph)
+        else:
+            edges = {
+                (q1, q2)
+                for op in circuit
+                if not isinstance(op.gate, placeholders)
+                for q1 in op.location
+                for q2 in op.location
+                if q1 < q2
+            }
+
         if any(
             (placement[e[0]], placement[e[1]]) not in self.coupling_graph
-            for e in circuit.coupling_graph
+            for e in edges
         ):
             return False
 
